@@ -5,6 +5,7 @@ package main
 import (
 	"fmt"
 	"go/types"
+	"regexp"
 	"sort"
 	"strings"
 )
@@ -35,6 +36,7 @@ type Universe struct {
 	ifaces     map[string]*types.Interface
 	boxSorts   map[string]bool
 	globals    []string // global declarations (ordered)
+	tagged     map[string]string // global line -> symbol that must occur in the query for it to be included
 	globalSet  map[string]bool
 	lits       map[string]string
 	fnids      map[string]int
@@ -47,7 +49,7 @@ func newUniverse() *Universe {
 		structs:    map[string]*structInfo{}, tags: map[string]int{},
 		ifaceFacts: map[string]bool{}, ifaces: map[string]*types.Interface{},
 		boxSorts: map[string]bool{}, globalSet: map[string]bool{}, lits: map[string]string{},
-		fnids: map[string]int{}, ghost: map[string]string{},
+		fnids: map[string]int{}, ghost: map[string]string{}, tagged: map[string]string{},
 	}
 }
 
@@ -312,23 +314,108 @@ func (u *Universe) fnID(name string) string {
 	return fmt.Sprint(1000000 + id)
 }
 
+// globalIf adds a global line that is only included in queries mentioning sym.
+func (u *Universe) globalIf(sym, decl string) {
+	u.tagged[decl] = sym
+	u.global(decl)
+}
+
 // header assembles all global declarations.
-func (u *Universe) header() string {
+func (u *Universe) header() string { return u.headerFor("") }
+
+// headerFor assembles the global declarations relevant to a query body: a declaration is kept when
+// its symbol occurs in the body or in a kept declaration; an axiom when the symbol it is about does.
+// (body "" keeps everything.)
+func (u *Universe) headerFor(body string) string {
 	var sb strings.Builder
 	sb.WriteString(smtPrelude)
 	for _, d := range u.structDecl {
 		sb.WriteString(d)
 		sb.WriteString("\n")
 	}
-	for _, g := range u.globals {
-		sb.WriteString(g)
-		sb.WriteString("\n")
+	all := append(append([]string{}, u.globals...), u.implFacts()...)
+	if body == "" {
+		for _, g := range all {
+			sb.WriteString(g)
+			sb.WriteString("\n")
+		}
+		return sb.String()
 	}
-	for _, f := range u.implFacts() {
-		sb.WriteString(f)
-		sb.WriteString("\n")
+	syms := make([]string, len(all))
+	for i, g := range all {
+		syms[i] = declaredSym(g)
+	}
+	keep := make([]bool, len(all))
+	text := body
+	changed := true
+	for changed {
+		changed = false
+		for i, g := range all {
+			if keep[i] {
+				continue
+			}
+			sym := syms[i]
+			if sym == "" {
+				// assert: tagged symbol, or first symbol it mentions among declared ones
+				if t, ok := u.tagged[g]; ok {
+					sym = t
+				} else {
+					sym = assertSym(g)
+				}
+			}
+			if sym == "" || containsSym(text, sym) {
+				keep[i] = true
+				text += "\n" + g
+				changed = true
+			}
+		}
+	}
+	for i, g := range all {
+		if keep[i] {
+			sb.WriteString(g)
+			sb.WriteString("\n")
+		}
 	}
 	return sb.String()
+}
+
+func declaredSym(g string) string {
+	for _, p := range []string{"(declare-fun ", "(define-fun ", "(declare-const "} {
+		if strings.HasPrefix(g, p) {
+			rest := g[len(p):]
+			if i := strings.IndexAny(rest, " )"); i > 0 {
+				return rest[:i]
+			}
+		}
+	}
+	return ""
+}
+
+var assertSymRe = regexp.MustCompile(`(lit\d+|impl_[A-Za-z0-9_.]+|sf_[A-Za-z0-9_]+|unbox_[A-Za-z0-9_.]+)`)
+
+func assertSym(g string) string {
+	return assertSymRe.FindString(g)
+}
+
+func containsSym(text, sym string) bool {
+	i := 0
+	for {
+		j := strings.Index(text[i:], sym)
+		if j < 0 {
+			return false
+		}
+		e := i + j + len(sym)
+		if e >= len(text) || !isSymChar(text[e]) {
+			if i+j == 0 || !isSymChar(text[i+j-1]) {
+				return true
+			}
+		}
+		i = e
+	}
+}
+
+func isSymChar(c byte) bool {
+	return c == '_' || c == '.' || c == '!' || (c >= '0' && c <= '9') || (c >= 'a' && c <= 'z') || (c >= 'A' && c <= 'Z')
 }
 
 func heapSort(u *Universe, key string) string {
